@@ -156,7 +156,9 @@ pub fn exec(tag: i64, inp: &[i64]) -> Vec<i64> {
             }
         }
         170 => {
-            let (kind, timeout, n1) = (inp[0], inp[1], inp[2] as usize);
+            // hundreds digit of the kind: how often the reset under test is called in a row
+            let reps = [1usize, 2, 256, 65536, 65537][(inp[0] / 100).clamp(0, 4) as usize];
+            let (kind, timeout, n1) = (inp[0] % 100, inp[1], inp[2] as usize);
             let ops1 = &inp[3..3 + 4 * n1];
             let ops2 = &inp[3 + 4 * n1..];
             let mut clock = Clock(0);
@@ -169,7 +171,13 @@ pub fn exec(tag: i64, inp: &[i64]) -> Vec<i64> {
             let mut c = a; // copies taken before the reset
             let mut d = a;
             let saved = a;
-            if region(|| a.reset()).is_none() {
+            if region(|| {
+                for _ in 0..reps {
+                    a.reset();
+                }
+            })
+            .is_none()
+            {
                 return vec![PANIC];
             }
             let e1 = a == Sc::new(kind, timeout);
@@ -289,6 +297,81 @@ pub fn gen_c15(tier: Tier, seed: u64, em: &mut Emitter) {
             }
             em.emit_k("polling-two-channels-exhaustive", 150, inp);
         }
+    }
+    // drift: channel b is left in the middle of a construct, then channel a runs one short cycle
+    // of operations 254..258 times (or 300), then b continues -- bookkeeping shared between the
+    // channels that is a little off per cycle (counters, masks)
+    let ncyc = if tier == Tier::Thorough { 3_000 } else { 300 };
+    for _ in 0..ncyc {
+        let kind = r.below(3) as i64;
+        let timeout = if kind == 2 { r.pick(&[0i64, 5, 1000]) } else { 0 };
+        let a = r.below(16) as i64;
+        let mut b = r.below(16) as i64;
+        if b == a {
+            b = (a + 1 + r.below(15) as i64) % 16;
+        }
+        let v = |r: &mut Rng| r.below(128) as i64;
+        let mut ops: Vec<i64> = Vec::new();
+        // both channels select something / start a construct
+        if kind == 0 {
+            ops.extend_from_slice(&[0, 176 + b, 5, v(&mut r)]);
+        } else {
+            for &c in &[a, b] {
+                ops.extend_from_slice(&[0, 176 + c, 99, v(&mut r), 0, 176 + c, 98, v(&mut r)]);
+            }
+            ops.extend_from_slice(&[0, 176 + b, r.pick(&[6i64, 38]), v(&mut r)]);
+        }
+        let tick = [4, timeout.max(1), 0, 0];
+        let cycles: Vec<Vec<i64>> = if kind == 0 {
+            vec![
+                vec![0, 176 + a, 7, 1, 0, 176 + a, 39, 2],
+                vec![0, 176 + a, 7, 1],
+                vec![0, 176 + a, 39, 2],
+                vec![0, 176 + a, 7, 1, 2, 0, 0, 0],
+            ]
+        } else {
+            let mut cs = vec![
+                vec![0, 176 + a, 6, 3, 0, 176 + a, 38, 4],
+                vec![0, 176 + a, 38, 4, 0, 176 + a, 6, 3],
+                vec![0, 176 + a, 96, 1],
+                vec![0, 176 + a, 38, 4, 0, 176 + a, 99, 9],
+                vec![0, 176 + a, 6, 3, 0, 176 + a, 98, 9],
+            ];
+            if kind == 2 {
+                let mut c1 = vec![0, 176 + a, 38, 4];
+                c1.extend_from_slice(&tick);
+                c1.extend_from_slice(&[3, a, 0, 0]);
+                let mut c2 = vec![0, 176 + a, 6, 3];
+                c2.extend_from_slice(&tick);
+                c2.extend_from_slice(&[3, a, 0, 0]);
+                let c3 = vec![0, 176 + a, 6, 3, 3, a, 0, 0];
+                let c4 = vec![3, a, 0, 0];
+                cs.extend(vec![c1, c2, c3, c4]);
+            }
+            cs
+        };
+        let cyc = r.pick_ref(&cycles).clone();
+        let k = r.pick(&[254usize, 255, 256, 257, 258, 300]);
+        for _ in 0..k {
+            ops.extend_from_slice(&cyc);
+        }
+        // b continues
+        if kind == 0 {
+            ops.extend_from_slice(&[0, 176 + b, 37, v(&mut r)]);
+        } else {
+            if kind == 2 {
+                ops.extend_from_slice(&tick);
+                ops.extend_from_slice(&[3, b, 0, 0]);
+            }
+            ops.extend_from_slice(&[0, 176 + b, 6, v(&mut r), 0, 176 + b, 38, v(&mut r), 0, 176 + b, 97, 1]);
+            if kind == 2 {
+                ops.extend_from_slice(&tick);
+                ops.extend_from_slice(&[3, b, 0, 0, 3, a, 0, 0]);
+            }
+        }
+        let mut inp = vec![kind, timeout, 2, a, b, 0];
+        inp.extend_from_slice(&ops);
+        em.emit_k(&format!("drift-cycles/kind={}", kind), 150, inp);
     }
     // seeded random interleavings of up to 16 channels over the full alphabet
     let n = if tier == Tier::Thorough { 150_000 } else { 6_000 };
@@ -428,7 +511,9 @@ pub fn gen_c17(tier: Tier, seed: u64, em: &mut Emitter) {
         let (kind, timeout) = pick_kind(&mut r);
         let mut ops1 = Vec::new();
         let n1 = random_ops(&mut r, kind % 10, timeout, maxlen, &mut ops1);
-        let mut inp = vec![kind, timeout, n1 as i64];
+        // mostly one reset; sometimes 2 / 256 / 65536 / 65537 in a row
+        let reps = if r.chance(3, 4) { 0 } else { 1 + r.below(4) as i64 };
+        let mut inp = vec![kind + 100 * reps, timeout, n1 as i64];
         inp.extend_from_slice(&ops1);
         random_ops(&mut r, kind % 10, timeout, maxlen, &mut inp);
         em.emit_k(&format!("reset-copy/kind={}", kind), 170, inp);
